@@ -174,9 +174,17 @@ def r3(ctx):
             ctx.bad(R, "take_due:remove", b.span, "no removal from the in-flight queue found")
         # a host takes only what is addressed to it: the removal hangs on `sent.dst.ip() == dst`
         for bb, t in rms:
-            okd = guarded_by_pred(b, bb, lambda o: o["k"] == "call" and re.search(r"PartialEq>::eq$|^std::cmp::PartialEq::eq$", o["t"]["f"]) and
-                                  any(a.startswith("arg:2:") for a in Slicer(ctx.w).atoms(b, o["t"]["args"][0]) | Slicer(ctx.w).atoms(b, o["t"]["args"][1])) and
-                                  "field:turmoil::top::Sent::dst" in Slicer(ctx.w).atoms(b, o["t"]["args"][0]) | Slicer(ctx.w).atoms(b, o["t"]["args"][1]))
+            def own(o):
+                if o["k"] != "call":
+                    return False
+                mm = re.search(r"PartialEq>::(eq|ne)$|^std::cmp::PartialEq::(eq|ne)$", o["t"]["f"])
+                if not mm:
+                    return False
+                at = Slicer(ctx.w).atoms(b, o["t"]["args"][0]) | Slicer(ctx.w).atoms(b, o["t"]["args"][1])
+                if not (any(a.startswith("arg:2:") for a in at) and "field:turmoil::top::Sent::dst" in at):
+                    return False
+                return True if (mm.group(1) or mm.group(2)) == "eq" else "neg"
+            okd = guarded_by_pred(b, bb, own)
             ctx.inst(R, "take_due:only-own-messages", okd, t["s"], "a host is handed only the messages addressed to it" if okd else
                      "a message can be taken off the link for a host it is not addressed to")
     d = ctx.body(R, "turmoil::top::Link::deliver_messages")
